@@ -1,0 +1,26 @@
+//go:build verif
+
+package client
+
+import "github.com/truora/minidyn/core"
+
+// VerifTables returns the client's tables (verification hook, read-only use).
+func VerifTables(fd *Client) map[string]*core.Table {
+	fd.mu.Lock()
+	defer fd.mu.Unlock()
+
+	out := map[string]*core.Table{}
+	for k, v := range fd.tables {
+		out[k] = v
+	}
+
+	return out
+}
+
+// VerifFailure returns the currently configured forced failure error (verification hook).
+func VerifFailure(fd *Client) error {
+	fd.mu.Lock()
+	defer fd.mu.Unlock()
+
+	return fd.forceFailureErr
+}
